@@ -10,6 +10,7 @@ CONSTANTS
   EntModes = {"first"}
   EpChoices = {0, 1, 2}
   CfgModes = {"full"}
+  AddrModes = {TRUE}
   TgtChoices = {0, 1}
   ScopeKinds = {"allfuncs", "allblocks"}
   Positions = {"ENTRY", "EXIT"}
